@@ -29,6 +29,7 @@ def encHint (h : Hint) : List UInt8 :=
 def encPayload : Payload → List UInt8
   | .ofRec r => encRec r
   | .ofHint h => encHint h
+  | .raw bs => bs
 
 def leNat : List UInt8 → Nat
   | [] => 0
@@ -111,7 +112,10 @@ def ByteDisk.toDisk (b : ByteDisk) : Option Disk :=
   let ds := b.data.mapM fun (id, bs) => (scanRecs (bs.length + 1) bs).map fun rs => (id, rs)
   let hs := b.hint.mapM fun (id, bs) => (scanHintsBytes (bs.length + 1) bs).map fun h => (id, h)
   match ds, hs with
-  | some d, some h => some { data := d, hint := h }
+  | some d, some h =>
+    let tails := (b.data.zip d).filterMap fun ((id, bs), (_, rs)) =>
+      if bs.length > fileSize rs then some (id, bs.length - fileSize rs) else none
+    some { data := d, hint := h, tails := tails }
   | _, _ => none
 
 end Store
